@@ -474,6 +474,8 @@ pub fn run_once(case: &CaseSpec, prefix: &[usize]) -> RunResult {
         let r = catch_unwind(AssertUnwindSafe(|| world2.call(s, format!("t{t}c{}", i + 1))));
         match r {
           Ok(v) => {
+            // is_closed() answered true: from now on nothing may be delivered through that subscription either
+            let gone = if s.k == "closed" && v == Val::B(true) { hname.clone() } else { gone };
             record(json!({"k": "ret", "th": t, "i": i + 1, "v": v.to_json(), "gone": gone}));
             rets2.lock().unwrap()[t - 1].push(v.to_json());
           }
